@@ -13,7 +13,9 @@
                              the PDU and, for AGF, every PDU inside are added to the history `sent`
      Dep(frames)             distinct (dir, transport bytes, bit rate) of all DEP frames after activation
      Waits(side, cyc)        distinct timeouts (carrier cycles) the side's run loop asked its driver for
-     Turn(side, us)          longest virtual time between receiving an LLC PDU and starting the answer
+     Turn(side, cyc)         longest virtual time (carrier cycles) between receiving an LLC PDU and starting
+                             the answer: bounded by the LTO the side announced and, for the target, by its RWT
+     Broken(llc)             the link went down before the application closed it
      Data(dir, kind, sent, rcvd, ok, problems)   what the receiving application got
 
    A behavioural mismatch is a STUCK of <id>.  The C19 invariants (Obey over the `sent` history with the
@@ -79,20 +81,25 @@ GDep == /\ IsEv("Dep") /\ ph = "up"
 GWaits == IsEv("Waits") /\ ph = "up" /\ Same
 GTurn  == IsEv("Turn") /\ ph = "up" /\ Same
 GData  == IsEv("Data") /\ ph = "up" /\ Same
-Conform == GActivate \/ GFrame \/ GXfer \/ GLlc \/ GDep \/ GWaits \/ GTurn \/ GData
+GBroken == IsEv("Broken") /\ ph = "up" /\ Same
+Conform == GActivate \/ GFrame \/ GXfer \/ GLlc \/ GDep \/ GWaits \/ GTurn \/ GData \/ GBroken
 
 \* ---- the C19 invariants as post-conditions of a step of the real execution
-InvNames == <<"Obey", "BitRate", "Timeouts", "LtoKept", "Delivered">>
+InvNames == <<"Obey", "BitRate", "Timeouts", "LtoKept", "RwtKept", "Delivered", "LinkUp">>
 InvP(n) == CASE n = "Obey" -> ObeyP(sent')
              [] n = "BitRate" -> (Ev.a = "Dep" => \A f \in Range(Ev.frames) : f.brty = E0.brty /\ f.size >= 2)
-             [] n = "Timeouts" -> (Ev.a = "Waits" => \A w \in Range(Ev.cyc) : w = ExpWait(c, Ev.side))
-             [] n = "LtoKept" -> (Ev.a = "Turn" => Ev.us <= ExpTurn(c, Ev.side))
-             [] n = "Delivered" -> (Ev.a = "Data" => Ev.ok /\ Ev.problems = 0 /\ Ev.rcvd <= Ev.sent
-                                                     /\ (Ev.kind = "I" => Ev.rcvd = Ev.sent))
+             \* a deadline covers one whole exchange: every wait is at most the negotiated timeout, the first is equal
+             [] n = "Timeouts" -> (Ev.a = "Waits" => /\ \A w \in Range(Ev.cyc) : w <= ExpWait(c, Ev.side) /\ w > 0
+                                                     /\ \E w \in Range(Ev.cyc) : w = ExpWait(c, Ev.side))
+             [] n = "LtoKept" -> (Ev.a = "Turn" => Ev.cyc <= ExpTurn(c, Ev.side))
+             [] n = "RwtKept" -> (Ev.a = "Turn" /\ Ev.side = "T" => Ev.cyc <= 4096 * Pow2(E0.wt))
+             [] n = "Delivered" -> (Ev.a = "Data" => Ev.ok /\ Ev.problems = 0 /\ Ev.rcvd <= Ev.sent)
+             [] n = "LinkUp" -> Ev.a # "Broken"
 Detail(n) == CASE n = "Obey" -> {f \in sent' : f.size > f.limit}
                [] n = "BitRate" -> <<E0.brty>>
                [] n = "Timeouts" -> <<ExpWait(c, Ev.side), Ev.cyc>>
-               [] n = "LtoKept" -> <<ExpTurn(c, Ev.side), Ev.us>>
+               [] n = "LtoKept" -> <<ExpTurn(c, Ev.side), Ev.cyc>>
+               [] n = "RwtKept" -> <<4096 * Pow2(E0.wt), Ev.cyc>>
                [] OTHER -> <<>>
 
 Real == /\ Conform
